@@ -170,6 +170,7 @@ func c10stable(c *core.Ctx) {
 		run.ps.DefaultBuffer = r.Range(1, 3)
 	}
 	nsub := r.Range(0, 4)
+	stalledAsync := isAsync(variant) && !timeoutOn && r.Chance(1, 2)
 	subs := make([]*psSub, nsub)
 	for i := range subs {
 		s := &psSub{release: make(chan struct{}), stable: true}
@@ -183,6 +184,10 @@ func c10stable(c *core.Ctx) {
 		s.behav = r.Pick(5, 3, 0)
 		if timeoutOn {
 			s.behav = r.Pick(3, 2, 4) // stalled receivers only make sense with a timeout
+		} else if stalledAsync {
+			// ... or with Pub/PubSlice: the sends to a subscriber nobody receives from
+			// wait, everybody else must still get every event meanwhile
+			s.behav = r.Pick(3, 2, 3)
 		}
 		if cap(s.ch) != s.buf {
 			c.Violate("Sub:buffer", fmt.Sprintf("subscription channel has capacity %d, expected %d", cap(s.ch), s.buf), nil)
@@ -192,7 +197,7 @@ func c10stable(c *core.Ctx) {
 		run.startReceiver(s, r.Uint64())
 	}
 	npub, per := r.Range(1, 3), r.Range(1, 8)
-	if r.Chance(1, 10) {
+	if r.Chance(1, 10) || stalledAsync && r.Bool() {
 		// big batches (slice variants publish them in one call)
 		npub, per = 1, r.Range(33, 200)
 	}
@@ -261,6 +266,52 @@ func c10stable(c *core.Ctx) {
 					close(s.release)
 				}
 			}
+		}
+	}
+	if stalledAsync {
+		// Some subscribers are not being received from (until released below). The sends
+		// addressed to them wait; every OTHER subscriber must get all events meanwhile.
+		// Verdict by logical fact: if every goroutine of the scenario is parked for good
+		// (senders on the stalled channels, receivers waiting for more) while a live
+		// subscriber is still short, the missing events cannot arrive.
+		nStalled := 0
+		liveDone := func() bool {
+			for _, s := range subs {
+				if s.behav != 2 && s.acks.Load() < int64(nev) {
+					return false
+				}
+			}
+			return true
+		}
+		for _, s := range subs {
+			if s.behav == 2 {
+				nStalled++
+			}
+		}
+		for t0 := time.Now(); nStalled > 0 && !liveDone(); {
+			time.Sleep(time.Millisecond)
+			if dl, where := core.Deadlocked(); dl && !liveDone() {
+				time.Sleep(50 * time.Millisecond)
+				if dl2, _ := core.Deadlocked(); dl2 && !liveDone() {
+					short := []string{}
+					for si, s := range subs {
+						if s.behav != 2 && s.acks.Load() < int64(nev) {
+							short = append(short, fmt.Sprintf("subscriber %d has %d of %d", si, s.acks.Load(), nev))
+						}
+					}
+					c.Violate(vname+":starved-by-stalled-subscriber", fmt.Sprintf("%s: %d subscriber(s) are not being received from; the others stay subscribed and keep receiving, but their events never arrive (%v): every goroutine is parked for good (%s)", vname, nStalled, short, where), extra)
+					releaseAll()
+					return
+				}
+			}
+			if time.Since(t0) > 60*time.Second {
+				releaseAll()
+				c.Inconclusive("live subscribers did not receive everything within the watchdog while another subscriber was stalled (no proof of starvation)")
+				return
+			}
+		}
+		if nStalled > 0 {
+			c.Count("stable_async_with_stalled_subscriber", 1)
 		}
 	}
 	if isAsync(variant) {
